@@ -165,6 +165,13 @@ AddAnswers == {"ok", "err_alloc", "err_put", "err_pin"}
 (*   local, filter, ans, o : OptNames -> class, a : AddOptNames -> class]  *)
 (***************************************************************************)
 \* right / right2: the two configured users; rightlower: "basic" scheme in lower case (RFC 7617: case-insensitive)
+\* Configuration variants of the API (req.tr): "plain" defaults; "tracing" = Config.Tracing (daemon --tracing: the
+\* handler chain gets the opencensus wrapper); "cors" = restrictive CORS settings + extra configured headers;
+\* "tracingcors" both.  Crossed with the credentials configuration (req.cfg).  Expected(req) and every property
+\* predicate ignore req.tr on purpose: the statement holds for every configuration and the answers do not depend
+\* on it (RestAPIMC!ConfigIndependent).
+ConfigVariants == {"plain", "tracing", "cors", "tracingcors"}
+
 CredRight == {"right", "right2", "rightlower"}
 \* every way of not presenting a configured (user, password) pair:
 \*   missing       no Authorization header
